@@ -207,6 +207,20 @@ func c03Viewport(v []byte) []byte {
 	return v
 }
 
+// space removal of html.go's viewport branch (spaces are separators: only those next to `,` `;` `=` or a space go)
+func c03ViewportSpaces(in []byte) []byte {
+	v := parse.Copy(in)
+	j := 0
+	for i, c := range v {
+		if c == ' ' && (i == 0 || i+1 == len(v) || bytes.IndexByte([]byte(",;= "), v[i+1]) != -1 || 0 < j && bytes.IndexByte([]byte(",;="), v[j-1]) != -1) {
+			continue
+		}
+		v[j] = c
+		j++
+	}
+	return v[:j]
+}
+
 func c03Ext(toks []c03Tok, o c03Opts, stub bool) string {
 	type key struct{ k, in string }
 	seen := map[key]bool{}
@@ -226,9 +240,11 @@ func c03Ext(toks []c03Tok, o c03Opts, stub bool) string {
 			var content, name []byte
 			hasContent := false
 			for _, a := range t.attrs {
-				va := parse.TrimWhitespace(parse.ReplaceMultipleWhitespaceAndEntities(parse.Copy(a.val), mhtml.EntitiesMap, nil))
-				vb := parse.ReplaceEntities(parse.Copy(a.val), mhtml.EntitiesMap, nil)
-				for _, v := range [][]byte{va, vb} {
+				va := parse.TrimWhitespace(parse.ReplaceMultipleWhitespaceAndEntities(parse.Copy(a.val), mhtml.EntitiesMap, mhtml.AttrRevEntitiesMap))
+				vb := parse.ReplaceEntities(parse.Copy(a.val), mhtml.EntitiesMap, mhtml.AttrRevEntitiesMap)
+				vc := parse.Copy(a.val) // values with reference glue keep their references
+				vd := parse.TrimWhitespace(parse.ReplaceMultipleWhitespace(parse.Copy(a.val)))
+				for _, v := range [][]byte{va, vb, vc, vd} {
 					add("mediatype", v, minify.Mediatype(parse.Copy(v)))
 					tv := parse.TrimWhitespace(v)
 					if 5 < len(tv) && c03EqualFold(tv[:5], "data:") {
@@ -245,7 +261,7 @@ func c03Ext(toks []c03Tok, o c03Opts, stub bool) string {
 			if string(t.text) == "meta" && hasContent {
 				add("mediatype", content, minify.Mediatype(parse.Copy(content)))
 				if c03EqualFold(parse.TrimWhitespace(parse.Copy(name)), "viewport") {
-					v := bytes.ReplaceAll(content, []byte(" "), nil)
+					v := c03ViewportSpaces(content)
 					add("viewport", v, c03Viewport(v))
 				}
 			}
@@ -269,8 +285,9 @@ func c03Ext(toks []c03Tok, o c03Opts, stub bool) string {
 // ---------- document generator ----------
 
 type c03Gen struct {
-	r  *h.RNG
-	sb *strings.Builder
+	r      *h.RNG
+	sb     *strings.Builder
+	inForm bool
 	// feature switches: constructs under an open known finding can be avoided to exercise the rest
 	rich bool
 }
@@ -310,7 +327,7 @@ func (g *c03Gen) comment() {
 var c03GlobalAttrs = []string{"class", "id", "title", "lang", "dir", "style", "hidden", "tabindex", "data-x", "onclick", "itemscope", "itemprop", "translate", "accesskey", "draggable", "contenteditable", "is", "slot", "about", "property", "content", "role", "aria-label"}
 var c03TagAttrs = map[string][]string{
 	"a": {"href", "name", "id", "target", "rel", "type", "hreflang", "download", "ping"}, "img": {"src", "alt", "width", "height", "ismap", "usemap", "srcset", "loading", "decoding"},
-	"input": {"type", "value", "name", "checked", "disabled", "required", "readonly", "placeholder", "maxlength", "size", "pattern", "autofocus", "multiple", "min", "max", "step", "list", "form", "accept"},
+	"input":  {"type", "value", "name", "checked", "disabled", "required", "readonly", "placeholder", "maxlength", "size", "pattern", "autofocus", "multiple", "min", "max", "step", "list", "form", "accept"},
 	"button": {"type", "disabled", "name", "value", "formaction", "formmethod", "formenctype", "formnovalidate"}, "form": {"action", "method", "enctype", "novalidate", "name", "target", "accept-charset", "autocomplete"},
 	"script": {"type", "src", "async", "defer", "charset", "nomodule", "crossorigin", "language"}, "style": {"type", "media", "amp-boilerplate"}, "link": {"rel", "href", "type", "media", "as", "crossorigin"},
 	"meta": {"name", "content", "http-equiv", "charset"}, "td": {"colspan", "rowspan", "headers"}, "th": {"colspan", "rowspan", "scope", "headers"}, "col": {"span"}, "colgroup": {"span"},
@@ -320,13 +337,13 @@ var c03TagAttrs = map[string][]string{
 	"details": {"open"}, "dialog": {"open"}, "label": {"for"}, "html": {"lang", "xmlns"}, "body": {"class", "onload"}, "time": {"datetime"}, "blockquote": {"cite"}, "q": {"cite"}, "ins": {"cite", "datetime"}, "del": {"cite"}, "meter": {"value", "min", "max", "low", "high", "optimum"}, "progress": {"value", "max"}, "base": {"href", "target"},
 }
 var c03AttrVals = map[string][]string{
-	"type":    {"text", "TEXT", "text/javascript", "text/css", "submit", "radio", "checkbox", "module", "text/html", "application/ld+json", " text/javascript ", "Text/JavaScript; charset=utf-8", "application/javascript", "button", "image/png", "text/template"},
-	"method":  {"get", "GET", "post", " get "}, "enctype": {"application/x-www-form-urlencoded", "multipart/form-data", "Text/Plain"}, "formenctype": {"application/x-www-form-urlencoded", "multipart/form-data"}, "accept": {"image/*", "image/png, image/jpeg", ".pdf,.doc", "Text/HTML"}, "shape": {"rect", "RECT", "circle"}, "media": {"all", "ALL", "screen", "print and (x)"},
+	"type":   {"text", "TEXT", "text/javascript", "text/css", "submit", "radio", "checkbox", "module", "text/html", "application/ld+json", " text/javascript ", "Text/JavaScript; charset=utf-8", "application/javascript", "button", "image/png", "text/template"},
+	"method": {"get", "GET", "post", " get "}, "enctype": {"application/x-www-form-urlencoded", "multipart/form-data", "Text/Plain"}, "formenctype": {"application/x-www-form-urlencoded", "multipart/form-data"}, "accept": {"image/*", "image/png, image/jpeg", ".pdf,.doc", "Text/HTML"}, "shape": {"rect", "RECT", "circle"}, "media": {"all", "ALL", "screen", "print and (x)"},
 	"colspan": {"1", "2", "one"}, "rowspan": {"1", "3", "one"}, "span": {"1", "2", "one"}, "value": {"", "on", "ON", "x", "a b", "1"}, "charset": {"utf-8", "UTF-8"}, "http-equiv": {"content-type", " Content-Type ", "refresh"},
 	"content": {"text/html; charset=utf-8", "Text/HTML; Charset=UTF-8", "a, b, c", "width=device-width, initial-scale=1.0", "width=device-width,initial-scale=1.50,maximum-scale=01", "x", ""},
 	"name":    {"keywords", "viewport", "Viewport", "description", "n", ""}, "href": {"http://x.y/z", "HTTP://X.Y", "https://a.b/?q=1&amp;r=2", "Https://x", " /p a th ", "#f", "data:text/plain;charset=us-ascii,a%20b", "data:,x", "javascript:void(0)", "httpx", "http:/", "mailto:a@b"},
-	"src":     {"a.png", " b.js ", "http://x/y.js", "data:image/png;base64,AAAA", "DATA:text/css,a%7Bb%7D", "//cdn/x"}, "action": {"", "/x", "http://x/", " "}, "style": {"", "color:red", " color : red ; ", "a:b;c:d"}, "onclick": {"f()", "javascript:f()", " JavaScript: g() ", "", "a=&quot;b&quot;"},
-	"class":   {"a", " a  b ", "", "a\nb", "x y z"}, "id": {"i", "", " j "}, "dir": {"ltr", ""}, "rel": {"stylesheet", " noopener  noreferrer "}, "target": {"_blank", " my  frame "}, "pattern": {"a  b", "[a-z]+"}, "language": {"javascript"},
+	"src": {"a.png", " b.js ", "http://x/y.js", "data:image/png;base64,AAAA", "DATA:text/css,a%7Bb%7D", "//cdn/x"}, "action": {"", "/x", "http://x/", " "}, "style": {"", "color:red", " color : red ; ", "a:b;c:d"}, "onclick": {"f()", "javascript:f()", " JavaScript: g() ", "", "a=&quot;b&quot;"},
+	"class": {"a", " a  b ", "", "a\nb", "x y z"}, "id": {"i", "", " j "}, "dir": {"ltr", ""}, "rel": {"stylesheet", " noopener  noreferrer "}, "target": {"_blank", " my  frame "}, "pattern": {"a  b", "[a-z]+"}, "language": {"javascript"},
 }
 
 func (g *c03Gen) attrValue(name string) string {
@@ -354,6 +371,9 @@ func (g *c03Gen) attrs(tag string) {
 		}
 		if used[name] { // duplicate attributes are a parse error
 			continue
+		}
+		if tag == "meta" && (name == "name" && used["http-equiv"] || name == "http-equiv" && used["name"]) {
+			continue // a meta element is either a named or a pragma one
 		}
 		used[name] = true
 		if g.r.Chance(5) {
@@ -564,9 +584,15 @@ func (g *c03Gen) flow(d int) {
 			}
 		case k < 8 && d > 0:
 			t := g.r.Pick(c03Flow)
+			if t == "form" && g.inForm {
+				t = "div" // a form inside a form is not conforming (the parser ignores the inner start tag)
+			}
+			was := g.inForm
+			g.inForm = g.inForm || t == "form"
 			g.open(t)
 			g.flow(d - 1)
 			g.close(t)
+			g.inForm = was
 		case k < 10:
 			t := g.r.Pick(c03Headings)
 			g.open(t)
@@ -887,9 +913,9 @@ func c03DiffAt(a, b []byte) string {
 
 // which oracle signatures a document-level trigger can explain
 var c03TrigSigs = map[string]string{
-	"glue": "text-words attr-value", "ctlref": "text-words attr-value text-space", "hexoverflow": "text-words attr-value",
-	"pend": "*", "endomit": "*", "colgroup": "*", "bodystart": "*", "textjoin": "text-words", // a changed tree shifts every later comparison
-	"wsclass": "text-space text-words", "prenl": "raw-text", "attrsem": "attr-missing attr-value", "rawstyle": "raw-text text-space text-words element-structure",
+	"crlf": "attr-value text-words text-space", "hexoverflow": "text-words attr-value",
+	"colgroup": "*", "textjoin": "text-words", // a changed tree shifts every later comparison
+	"rawstyle": "raw-text text-space text-words element-structure",
 }
 
 func c03Explains(trigs []string, sig string) string {
@@ -903,8 +929,8 @@ func c03Explains(trigs []string, sig string) string {
 	return ""
 }
 
-var c03KnownOfTrig = map[string]string{"glue": "K-C03-1", "ctlref": "K-C03-2", "hexoverflow": "K-C03-3", "pend": "K-C03-4", "endomit": "K-C03-5",
-	"colgroup": "K-C03-6", "bodystart": "K-C03-7", "textjoin": "K-C03-8", "wsclass": "K-C03-9", "attrsem": "K-C03-10", "rawstyle": "K-C03-11", "prenl": "K-C03-12"}
+var c03KnownOfTrig = map[string]string{"hexoverflow": "K-C03-3", "colgroup": "K-C03-6", "textjoin": "K-C03-8", "rawstyle": "K-C03-11",
+	"crlf": "K-C03-13"}
 
 func c03StageDom(c *Ctx, docs [][]byte, names []string, allMasks bool) error {
 	st := c.R.StartStage("dom", "PROPERTY ORACLE independent of the model: input and real html.Minify output (registry without sub-minifiers) parsed by golang.org/x/net/html and compared modulo the documented changes (comments; whitespace that cannot render, judged with the HTML standard's display classes; droppable default/empty attributes; attribute value normalisations) on generated conforming documents, the fixed snippet corpus (all 32 Keep* combinations), /repo/tests/html/corpus and /repo/_benchmarks; a difference is a failing input unless the document falls under the trigger of an open known finding that explains the difference class; non-trivial = output differs from input")
@@ -1000,6 +1026,23 @@ func c03StageDom(c *Ctx, docs [][]byte, names []string, allMasks bool) error {
 
 func c03ReplayKnown(c *Ctx) error {
 	for _, k := range h.Known("C03") {
+		if k.Status == "fixed" && k.ReplayStr("kind") == "dom" {
+			// regression: the input of a fixed finding must parse back to the same document
+			in := []byte(k.ReplayStr("input"))
+			for mask := 0; mask < 128; mask += 2 { // every combination except KeepComments
+				o := c03OptsOf(mask)
+				out, err, crash := c03RunReal(in, o, false)
+				if crash != "" || err != nil {
+					c.R.Add(h.Finding{Stage: "known", Kind: "crash", What: "fixed finding " + k.ID + ": " + crash, Input: h.Q(in), Hex: h.Hex(in), Config: o.String()})
+					break
+				}
+				if res := c03oCompare(in, out, o.oracle()); res != "" {
+					c.R.Add(h.Finding{Stage: "known", Kind: "fail", What: "fixed finding " + k.ID + " fails again", Input: h.Q(in), Hex: h.Hex(in), Config: o.String(), Impl: h.Q(out) + " — " + res})
+					break
+				}
+			}
+			continue
+		}
 		if k.Status != "open" {
 			continue
 		}
